@@ -182,6 +182,22 @@ def execute(case):
     info = {}
     threads = []
     opres = {}
+    # harness-side instrumentation of the in-memory socket: count T's read timeouts (each one is
+    # an opportunity for its keepalive timer to fire)
+    import socket as _socket
+
+    t_ep = link.a if role == "client" else link.b
+    timeouts = [0]
+    _recv = t_ep.recv
+
+    def counting_recv(n):
+        try:
+            return _recv(n)
+        except _socket.timeout:
+            timeouts[0] += 1
+            raise
+
+    t_ep.recv = counting_recv
     try:
         T.clear_to_send_timeout = CTS_TIMEOUT
         ce, se = peers.start_both(tc, ts, peers.RecordingServer(policy))
@@ -255,8 +271,17 @@ def execute(case):
             bg("T-renegotiate", T.renegotiate_keys)
         elif mode == "threshold":
             n = 0
+            from paramiko.ssh_exception import SSHException
+
             while not T.packetizer.need_rekey():  # pacing via the public accessor
-                T.send_ignore(4)
+                try:
+                    T.send_ignore(4)
+                except SSHException:
+                    # T's own keepalives crossed the threshold first and the exchange is already
+                    # running (held): this harness send was gated like any user message
+                    if n_type_out(20) > kx0:
+                        break
+                    raise
                 n += 1
                 if n > 10 * case["rp"]:
                     raise core.HarnessError("threshold never reached")
@@ -279,9 +304,19 @@ def execute(case):
         if "exec" in ops:
             bg("op:exec", lambda: chT[2 if len(ms) < 3 else 3].exec_command("true"))
         t_hold = time.time()
+        to0 = timeouts[0]
         if case["hold_ms"]:
             time.sleep(case["hold_ms"] / 1000.0)
+        if case["ka"]:
+            # keep the exchange waiting until T's reader has timed out twice with the keepalive
+            # interval (0.05 s) long expired: the keepalive is then due *inside* the exchange
+            end = time.time() + WAIT
+            while time.time() < end and T.is_active() and timeouts[0] < to0 + 2:
+                if not T.clear_to_send.is_set() and "_send_user_message" in _stack_of(T):
+                    break  # transport thread already stuck
+                time.sleep(0.01)
         info["held_s"] = round(time.time() - t_hold, 3)
+        info["timeouts_in_hold"] = timeouts[0] - to0
         if mode != "peer":
             wire.mark("release-M")
             in_d.release(len(ms))
@@ -381,7 +416,7 @@ def execute(case):
     after = [r for r in later if g_nk is not None and r[0] > g_nk]
     g_rel = next((g for g, e in enumerate(ev) if e == ("mark", "release-M")), None)
     nontrivial = bool(ms) and g_kx is not None and g_rel is not None and g_kx < g_rel and (g_nk is None or g_rel < g_nk)
-    if case["ka"] and mode != "peer" and info.get("held_s", 0) >= 0.3:
+    if case["ka"] and info.get("timeouts_in_hold", 0) >= 1:
         nontrivial = True
     info["window_types"] = [r[3] for r in window]
     foreign = [r for r in window if not (1 <= r[3] <= 49)]
@@ -503,6 +538,26 @@ class Runner:
                     continue
             ctx.violation(clause, bucket, case, detail)
 
+    @staticmethod
+    def culprit(case, r):
+        if [v[0] for v in r["viol"]] != ["session-died"]:
+            return None
+        stack = r["info"].get("stack") or ""
+        if "_send_user_message" not in stack:
+            return None
+        if "_check_keepalive" in stack and case["ka"]:
+            return ("ka", "keepalive")
+        for fn, pred in (
+            ("_handle_close", lambda k: k == "close"),
+            ("_request_failed", lambda k: k == "channel-failure"),
+            ("_handle_request", lambda k: k.startswith("chanreq:") and k.endswith(":1")),
+        ):
+            if "channel.py:%s:" % fn in stack:
+                for k in case["ms"]:
+                    if pred(k):
+                        return ("m", k)
+        return None
+
     def judge(self, cases, results, record=True):
         ctx = self.ctx
         for case, r in zip(cases, results):
@@ -517,6 +572,13 @@ class Runner:
                 continue
             if len(comps) <= 1:
                 self.report(case, r, comp_name(comps[0]) if comps else "bare-exchange")
+                continue
+            # a stalled transport thread names its culprit itself (robust against scheduling noise)
+            culprit = self.culprit(case, r)
+            if culprit is not None and all(("%s|%s" % (v[0], comp_name(culprit))) in self.known for v in r["viol"]):
+                ctx.count("attributed-by-stack")
+                for clause, detail in r["viol"]:
+                    ctx.violation(clause, comp_name(culprit), single(case, culprit), detail)
                 continue
             singles = [single(case, c) for c in comps]
             # distinct components only
@@ -596,7 +658,7 @@ def run(ctx):
         def body(batch):
             rn.judge(batch, rn.map(batch))
 
-        ctx.explore(st.lists(cases(), min_size=bsz, max_size=bsz), body, ctx.scale(2, 60), shrink=False)
+        ctx.explore(st.lists(cases(), min_size=bsz, max_size=bsz), body, ctx.scale(3, 50), shrink=False)
     finally:
         rn.close()
 
